@@ -9,25 +9,6 @@ import "encoding/json"
 // option objects holding any subset of the known member names with values of arbitrary type), and
 // a successful parse hands the handlers everything they dereference without a check.
 
-// verifC08RawParams models req.Params as delivered by jsonrpc2.Request.UnmarshalJSON:
-// nil when the request has no "params" member, otherwise a non-nil raw message.
-var verifC08ParamsMissing bool
-
-// `parsed` tells whether the code under test is going to parse the params (only then does the
-// known-finding region C08-params-nil apply).
-func verifC08RawParams(parsed bool) *json.RawMessage {
-	verifC08ParamsMissing = verifChoice("params.member", 2) == 0
-	if verifC08ParamsMissing {
-		// {"jsonrpc":"2.0","id":1,"method":"getBlock"}  -> req.Params == nil
-		if parsed {
-			verifKnownFinding("C08-params-nil", true)
-		}
-		return nil
-	}
-	raw := json.RawMessage("[opaque]")
-	return &raw
-}
-
 // verifC08DecodeOutcome chooses what the decoder makes of the raw params:
 //
 //	A. an error (params is not a list), a null list, an empty list;
@@ -77,12 +58,6 @@ func verifC08DecodeOutcome(first verifC08Key, keys []verifC08Key) {
 		}
 	}
 }
-
-var (
-	verifC08SlotArg = verifC08Key{"slot", verifC08Number, []string{"123", ""}, verifC08Numbers}
-	verifC08SigArg  = verifC08Key{"signature", verifC08String, verifC08B58Strings, []float64{1}}
-	verifC08AddrArg = verifC08Key{"address", verifC08String, append([]string{verifC08Key32}, verifC08B58Strings...), []float64{1}}
-)
 
 var verifC08BlockOptionKeys = []verifC08Key{
 	{"commitment", verifC08String, []string{"finalized"}, nil},
